@@ -611,6 +611,9 @@ func judgeRange(mod string, c []byte, e expect, o obs) (vs []viol, outcome strin
 		if bytes.Contains(o.Body, []byte(upstreamMarker)) {
 			add("answer_416", "upstream_body_leak", "416 carries the upstream body")
 		}
+		if cr := o.Header.Get("Content-Range"); cr != "" && cr != fmt.Sprintf("bytes */%d", n) {
+			add(e.Class, "content_range_inconsistent", fmt.Sprintf("416 with Content-Range %q, want %q", cr, fmt.Sprintf("bytes */%d", n)))
+		}
 	case 206:
 		outcome = "206"
 		if !e.Allow206 {
@@ -619,8 +622,15 @@ func judgeRange(mod string, c []byte, e expect, o obs) (vs []viol, outcome strin
 		}
 		wantCR := func(r [2]int) string { return fmt.Sprintf("bytes %d-%d/%d", r[0], r[1], n) }
 		mt, params, err := mime.ParseMediaType(o.Header.Get("Content-Type"))
+		if err != nil && strings.HasPrefix(strings.ToLower(o.Header.Get("Content-Type")), "multipart/byteranges") {
+			add(e.Class, "multipart_malformed", "the multipart Content-Type does not parse: "+err.Error())
+			return vs, "206_multipart"
+		}
 		if err == nil && mt == "multipart/byteranges" {
 			outcome = "206_multipart"
+			if cr := o.Header.Get("Content-Range"); cr != "" {
+				add(e.Class, "content_range_on_multipart", "multipart/byteranges response with a top-level Content-Range "+strconv.Quote(cr))
+			}
 			parts, perr := readParts(o.Body, params["boundary"])
 			if perr != nil {
 				add(e.Class, "multipart_malformed", "multipart body does not parse: "+perr.Error())
@@ -715,7 +725,7 @@ func buildTree(tier string) error {
 	if err := os.MkdirAll(rangeRoot, 0o755); err != nil {
 		return err
 	}
-	for _, n := range []int{0, 1, 2, 10, 65536} {
+	for _, n := range allRangeFileSizes() {
 		if err := os.WriteFile(filepath.Join(rangeRoot, rangeFile(n)), content(n), 0o644); err != nil {
 			return err
 		}
@@ -743,7 +753,7 @@ func buildTree(tier string) error {
 		}
 		lvl = filepath.Dir(lvl)
 	}
-	return nil
+	return buildExtTree()
 }
 
 // ---------------------------------------------------------------------------------------------------
@@ -1117,6 +1127,11 @@ func setupScratch(tier string) {
 		fmt.Fprintln(os.Stderr, "C20: cannot build the scratch tree:", err)
 		cleanupAndExit(2)
 	}
+	// the relative root spelling of the xpath family is relative to the scratch directory
+	if err := os.Chdir(scratchDir); err != nil {
+		fmt.Fprintln(os.Stderr, "C20:", err)
+		cleanupAndExit(2)
+	}
 }
 
 func main() {
@@ -1125,8 +1140,14 @@ func main() {
 		return
 	}
 	tier := lib.Tier()
+	replayFile := os.Getenv("VERIF_REPLAY")
+	if replayFile != "" {
+		if abs, err := filepath.Abs(replayFile); err == nil {
+			replayFile = abs // setupScratch changes the working directory
+		}
+	}
 	setupScratch(tier)
-	if p := os.Getenv("VERIF_REPLAY"); p != "" {
+	if p := replayFile; p != "" {
 		replay(p)
 		cleanupAndExit(0)
 	}
@@ -1137,9 +1158,40 @@ func main() {
 	sizes := sizesFor(tier)
 	var light, heavy []rangeCase
 	nHeaders := 0
+	seenCase := map[string]bool{}
+	addCases := func(n int, hs []string) {
+		for m := range modNames {
+			if k := fmt.Sprintf("%d/%d/-", m, n); !seenCase[k] {
+				seenCase[k] = true
+				light = append(light, rangeCase{Mod: m, Size: n})
+			}
+			for _, h := range hs {
+				if k := fmt.Sprintf("%d/%d/+%s", m, n, h); seenCase[k] {
+					continue
+				} else {
+					seenCase[k] = true
+				}
+				c := rangeCase{Mod: m, Size: n, HasRange: true, Header: h}
+				if isHeavy(h) {
+					heavy = append(heavy, c)
+				} else {
+					light = append(light, c)
+				}
+			}
+		}
+	}
+	if !famOn("base") {
+		sizes = nil
+	}
 	for _, n := range sizes {
 		hs := headersFor(tier, n)
 		nHeaders += len(hs)
+		for m := range modNames {
+			seenCase[fmt.Sprintf("%d/%d/-", m, n)] = true
+			for _, h := range hs {
+				seenCase[fmt.Sprintf("%d/%d/+%s", m, n, h)] = true
+			}
+		}
 		for m := range modNames {
 			light = append(light, rangeCase{Mod: m, Size: n})
 			for _, h := range hs {
@@ -1152,6 +1204,20 @@ func main() {
 			}
 		}
 	}
+	nBase := len(light) + len(heavy)
+	if famOn("grid") {
+		gs, tripleMax := gridSizes(tier)
+		for _, n := range gs {
+			addCases(n, gridHeaders(n, n <= tripleMax))
+		}
+	}
+	nGrid := len(light) + len(heavy) - nBase
+	if famOn("sizes") {
+		for _, n := range extraSizes(tier) {
+			addCases(n, extraSizeHeaders(tier, n))
+		}
+	}
+	nSizes := len(light) + len(heavy) - nBase - nGrid
 	var nontrivial, calls int64
 	type failed struct {
 		c  rangeCase
@@ -1264,6 +1330,9 @@ func main() {
 
 	// ---- part 2: paths ----
 	pcs := pathCases(tier)
+	if !famOn("base") {
+		pcs = nil
+	}
 	var pathNontrivial, pathRejected int64
 	lib.Parallel(len(pcs), func(i int) {
 		c := pcs[i]
@@ -1288,6 +1357,10 @@ func main() {
 		}
 		agg.outcome("static:path/"+outcome, 1)
 	})
+
+	// ---- extensions (ext.go) ----
+	ext := runExtensions(tier, agg)
+	calls += ext.calls
 
 	// ---- report ----
 	var sigs []string
@@ -1315,19 +1388,27 @@ func main() {
 	rep.Count("path_cases_with_dotdot_encoded_or_backslash", pathNontrivial)
 	rep.Count("worker_processes_spawned", spawned)
 	rep.Count("worker_deaths_attributed", deaths)
-	rep.Coverage["states"] = nRange + nPath
+	rep.Count("range_cases_grid", int64(nGrid))
+	rep.Count("range_cases_extra_sizes", int64(nSizes))
+	for k, v := range ext.perFamily {
+		rep.Count(k, v)
+	}
+	rep.Coverage["states"] = nRange + nPath + ext.cases
 	rep.Coverage["transitions"] = calls
 	rep.Coverage["traces_validated_against_impl"] = calls
 	rep.Coverage["evaluations"] = calls
-	rep.Coverage["distinct_nontrivial"] = nontrivial + pathNontrivial
+	rep.Coverage["distinct_nontrivial"] = nontrivial + pathNontrivial + ext.nontrivial
 	rep.Coverage["outcomes_by_class"] = agg.outcomes
-	rep.Coverage["rule"] = "ranges: every header unit{bytes=,Bytes=,items=,missing} x 1..3 specs of the size-relative pool, for every content size and both modifiers (all distinct by construction); non-trivial = the reference model finds at least one satisfiable range (a 206 is an acceptable answer). paths: every segment sequence x {origin,absolute}-form x {no map, explicit map}; non-trivial = contains '..', '%2e%2e', '%2f' or a backslash segment"
+	rep.Coverage["rule"] = "ranges: every header unit{bytes=,Bytes=,items=,missing} x 1..3 specs of the size-relative pool, for every content size and both modifiers (all distinct by construction); non-trivial = the reference model finds at least one satisfiable range (a 206 is an acceptable answer). paths: every segment sequence x {origin,absolute}-form x {no map, explicit map}; non-trivial = contains '..', '%2e%2e', '%2f' or a backslash segment. grid/sizes: more (size, header) pairs of the range part, deduplicated against it. history: every sequence of calls on one modifier instance x read schedule; non-trivial = at least two bodies outstanding. upstream / boundary: every (modifier, upstream kind | boundary, header); non-trivial = a 206 is acceptable (upstream) / several satisfiable ranges (boundary). xpath: every target x variant; non-trivial = a segment other than a / sub, or a non-default variant"
 	rep.Coverage["exhaustive"] = true
 	maxSeg, triple := 3, "reduced 10-spec pool for 3-spec headers"
 	if tier == "thorough" {
 		maxSeg, triple = 4, "full pool for 3-spec headers"
 	}
-	rep.Coverage["bounds"] = fmt.Sprintf("content sizes %v; spec pool of %d specs (size 10), 1..3 specs (%s), 4 units; request paths of <= %d segments over %d segment spellings", sizes, len(specPool(10)), triple, maxSeg, len(segAlphabet))
+	gs, gt := gridSizes(tier)
+	hl := map[string]int{"quick": 3, "thorough": 4}[tier]
+	rep.Coverage["bounds"] = fmt.Sprintf("content sizes %v; spec pool of %d specs (size 10), 1..3 specs (%s), 4 units; request paths of <= %d segments over %d segment spellings; grid: sizes %v, all specs over positions 0..n+1, 1..2 specs (3 for n <= %d); extra sizes %v; histories of <= %d calls over %d (body) / %d (static) steps x 2 read schedules; %d upstream kinds; xpath: <= 3 segments over %d spellings, %d constructors x %d root spellings",
+		sizes, len(specPool(10)), triple, maxSeg, len(segAlphabet), gs, gt, extraSizes(tier), hl, len(histAlphabet(0)), len(histAlphabet(1)), len(upstreamKinds), len(xsegAlphabet), len(xCtors), len(xRoots))
 	for _, i := range []int{1, len(light) / 3, len(light) / 2, len(light) - 1} {
 		if i >= 0 && i < len(light) {
 			rep.Sample(8, light[i].String())
@@ -1336,13 +1417,17 @@ func main() {
 	if len(heavy) > 0 {
 		rep.Sample(8, heavy[len(heavy)/2].String())
 	}
-	rep.Sample(8, pcs[len(pcs)/2].String())
-	rep.Sample(8, pcs[len(pcs)-1].String())
+	if len(pcs) > 0 {
+		rep.Sample(8, pcs[len(pcs)/2].String())
+		rep.Sample(8, pcs[len(pcs)-1].String())
+	}
 	rep.Assumptions = []string{
 		"ModifyResponse is called directly on a response built like the proxy builds it (body modifier: upstream response whose body fails after Close; static modifier: proxyutil.NewResponse(200, nil, req) as after SkipRoundTrip); ModifyRequest (context bookkeeping only) is not exercised",
 		"a malformed or lenient header (missing unit, inner spaces, empty list elements, numbers beyond 64 bits) may be answered with full content, 416 or the 206 of its evident reading; other units, non-numeric, negative and reversed specs only with full content or 416",
 		"path part runs on Linux: a backslash is an ordinary file name character; explicit path map values are treated as configured paths that must stay beneath the root",
-		"one content byte pattern per size (no zero bytes); sizes limited to the listed ones",
+		"one content byte pattern per size (no zero bytes) in the range part; the history, upstream and boundary families use a 17-byte content with %, CR LF, -- and NUL; sizes limited to the listed ones",
+		"upstream family: judged on the wire image (res.Write, http.ReadResponse); a status other than 206 / 416 together with the full content counts as the full-content outcome; a chunked response has no Content-Length to mismatch",
+		"xpath family: URL.Path values without a leading slash cannot come from a request line (another modifier must have rewritten the URL); for them 404 is always acceptable",
 	}
 	code := rep.FinishNoExit()
 	cleanupAndExit(code)
@@ -1395,6 +1480,10 @@ func replay(path string) {
 		fmt.Printf("%s\n outcome %s\n", c, outcome)
 		for _, v := range vs {
 			fmt.Printf(" VIOLATION %s\n  %s\n", v.Sig, v.Desc)
+		}
+	default:
+		if !replayExt(rp.First.Replay.Part, rp.First.Replay.Case) {
+			fmt.Println("unknown replay part", rp.First.Replay.Part)
 		}
 	}
 }
